@@ -584,3 +584,9 @@ def rule_ver(ctx, F):
                     rev = True
         ctx.ob(R, gb[0], "newest entry with entry.version <= reader version", le and rev,
                "Versioned::get must scan from the newest entry and accept the first whose version is <= the requested one")
+
+
+def run_thorough(ctx):
+    # type-level part of the property: compile-fail witnesses (rules/witness.py)
+    import witness
+    witness.run(ctx, "C09")
